@@ -2,6 +2,10 @@ package drv
 
 import (
 	"math/rand"
+	"sync"
+	"testing/synctest"
+
+	"verif/harness/tr"
 )
 
 // RPCScript holds the scripted application behaviour of one RPC: per end
@@ -240,4 +244,86 @@ func (s *Session) runPolicy(sc *Scenario, stepNo *int) int {
 		*stepNo++
 	}
 	return n
+}
+
+// runFree executes the scripts free-running: every application actor runs its
+// ops on its own goroutine with real parallelism, frames are delivered at once,
+// library goroutines are randomly delayed at the yield points, faults fire when
+// the event log reaches a given length. Only the final quiescent point is
+// reported.
+func (s *Session) runFree(sc *Scenario, stepNo *int) {
+	p := sc.Policy
+	s.rngMu.Lock()
+	s.rng = rand.New(rand.NewSource(p.Seed))
+	s.rngMu.Unlock()
+	s.mu.Lock()
+	s.scripts = map[int]RPCScript{}
+	for _, rs := range sc.RPCs {
+		s.scripts[rs.Rpc] = rs
+	}
+	s.mu.Unlock()
+	// faults by event count
+	var fmu sync.Mutex
+	fired := map[int]bool{}
+	s.Log.SetTap(func(e tr.E) {
+		n, _ := e["i"].(int)
+		for i, f := range p.Faults {
+			fmu.Lock()
+			ok := !fired[i] && f.At >= 0 && n >= f.At
+			if ok {
+				fired[i] = true
+			}
+			fmu.Unlock()
+			if ok {
+				st := f.Step
+				go func() { s.exec(st) }()
+			}
+		}
+	})
+	for _, rs := range sc.RPCs {
+		r := s.getRPC(rs.Rpc)
+		ready := make(chan struct{})
+		for _, act := range []string{"m", "a"} {
+			list := rs.C[act]
+			if len(list) == 0 {
+				if act == "m" {
+					close(ready)
+				}
+				continue
+			}
+			a := &actor{end: "c", rpc: rs.Rpc, name: act, cmds: make(chan Step)}
+			s.mu.Lock()
+			r.cact[act] = a
+			s.mu.Unlock()
+			go func(act string, list []Step) {
+				if act == "a" {
+					select {
+					case <-ready:
+					case <-s.quit:
+						return
+					}
+				}
+				for i, st := range list {
+					st.Do, st.End, st.Rpc, st.Act = "op", "c", rs.Rpc, act
+					first := st.Op == "new" || st.Op == "invoke"
+					if !first && r.cs == nil {
+						break
+					}
+					if (st.Op == "send" || st.Op == "half") && s.sendFailed(rs.Rpc, "c") {
+						continue
+					}
+					stc := st
+					a.setCur(&stc)
+					s.clientOp(r, a, st)
+					a.setCur(nil)
+					if act == "m" && i == 0 {
+						close(ready)
+					}
+				}
+			}(act, list)
+		}
+	}
+	synctest.Wait()
+	s.Log.SetTap(nil)
+	*stepNo++
 }
